@@ -4,6 +4,7 @@ CHECK = {
     "harnesses": [
         {"exe": "c20_stats", "flavour": "plain", "cases": (400000, 20000000), "procs": (8, 14), "subs": ["percentile", "histogram"]},
     ],
+    "fuzzers": [{"exe": "fz_stats", "runs": (400000, 40000000), "max_len": 256, "jobs": (4, 12)}],
     "min_nontrivial": (1000, 10000),
     "rule": ("rapidcheck-generated lists of 1..500 integers/reals (ties, negatives) x 6 percentages (k/8 grid, reals, positions integral "
              "up to rounding) and histograms in 6 construction modes x 12+ query values; oracle = sorted-array reference with the exact "
@@ -11,7 +12,7 @@ CHECK = {
              "fractional position; histogram case with >= 2 non-empty bins, a data value equal to a threshold and a non-integer query. "
              "Distinct = distinct serialised cases (64-bit hash)."),
     "assumptions": ["harness-side sorted-array reference is correct", "rapidcheck generators; Eigen"],
-    "technique": "property-based testing (rapidcheck) against a sorted-array reference model with exact rational positions",
+    "technique": "property-based testing (rapidcheck) + coverage-guided fuzzing (libFuzzer, ASan/UBSan) against a sorted-array reference model with exact rational positions",
     "level_text": ("Generated-input exploration: hundreds of thousands (quick) to tens of millions (thorough) of generated value lists, "
                    "percentages, threshold sets and query values are compared with an independent sorted-array reference; held on everything "
                    "generated, no claim beyond that."),
